@@ -102,6 +102,25 @@ def run(ctx):
         impl = list(ex.map(one, jobs))
     tagged = [f"{l} ## argv={j[0]} stdin={j[1][0]} stdout={j[1][1]} env={j[3]}" for l, j in zip(lines, jobs)]
     ctx.compare("noninteractive", tagged, impl, model, spec, nontrivial=lambda c, i: True)
+    # the script text is bytes, not characters: whatever the channel (argv or a line on stdin), the same text gives the same result
+    texts = [b"[OP_1 \xffab OP_2]", b"[\xff]", b"\xff", b"[OP_1 \x80\x81 OP_2]", b"[caf\xc3\xa9 OP_DROP OP_1]", b"[OP_1 a\xfeb OP_2]", b"[OP_1 \xff\xff OP_2 OP_3]",
+             b"[\xff OP_SIZE]", b"[OP_1 #\xff\xfe c ]", b"[abc\x7f\x01\x1b OP_1]", b"[OP_1 '\xff']", b"[OP_1 \xc0 OP_2]", b"[OP_1\tOP_2]", b"[OP_1 OP_2 \xe2\x82\xac]"]
+    for _ in range(20 if quick else 400):
+        body = bytes(rnd.choice((rnd.randrange(0x80, 0x100), rnd.randrange(0x21, 0x7f), 0xff)) for _ in range(rnd.randrange(1, 12)))
+        body = body.replace(b"[", b"x").replace(b"]", b"y").replace(b"#", b"z").replace(b"(", b"u").replace(b")", b"v")
+        texts.append(b"[OP_1 " + body + b" OP_2]")
+    def chan(t):
+        a = ptyrun.run([os.path.join(ctx.bin, "btcdeb").encode(), t], "tty", "pipe", "")
+        b = ptyrun.run([os.path.join(ctx.bin, "btcdeb")], "pipe", "pipe", t + b"\n")
+        return a, b
+    with ThreadPoolExecutor(max_workers=16) as ex:
+        res = list(ex.map(chan, texts))
+    for t, (a, b) in zip(texts, res):
+        ctx.count("text-channels", 1)
+        ctx.nontrivial.add("chan:" + t.hex())
+        if (a[0], a[1]) != (b[0], b[1]) or a[0] not in (0, 1):
+            ctx.violation("btcdeb <text> argv vs stdin ## text=" + t.hex(), {"why": "the same script text gives different results on argv and on stdin", "text_hex": t.hex(),
+                          "argv": {"rc": a[0], "stdout": a[1][-300:], "stderr": a[2][-300:]}, "stdin": {"rc": b[0], "stdout": b[1][-300:], "stderr": b[2][-300:]}})
     # --verbose is refused in this mode
     for mode in MODES:
         rc, out, err = ptyrun.run([os.path.join(ctx.bin, "btcdeb"), "-v"] + (["0x51"] if mode[2] == "argv" else []), mode[0], mode[1], "0x51\n" if mode[2] == "stdin" else "")
